@@ -642,7 +642,14 @@ func (p *pp) handleMethods(verb rune) (handled bool) {
 		case i.SafeMessager:
 			handled = true
 			defer p.catchPanic(p.arg, verb, "SafeMessager")
-			defer p.startSafeOverride().restore()
+			switch verb {
+			case 'v', 's', 'x', 'X', 'q':
+				// Only the message is safe. With a verb that is not
+				// valid for strings, fmtString reports a bad verb and
+				// prints the underlying value instead: that one is
+				// not covered by the SafeMessager contract.
+				defer p.startSafeOverride().restore()
+			}
 			p.fmtString(v.SafeMessage(), verb)
 			return
 
